@@ -29,7 +29,8 @@ NAMES = ['x', 'y', 'f', 'g', 'm', 'Top', 'round', 'floor', 'random', 'cycle', 'i
 PUNCT = ['{', '}', '[', ']', '(', ')', '+', '-', '*', '/', '%', '^', '<', '<=', '>', '>=', '==', '!=',
          '#', ':', '!', '=', ',', '.', ';', '@', '&', '|', '"']
 LITS = ['0', '1', '2', '5', '100', '2.5', '.5', '007', '1e3', '1.2.3', '"Top"', '"Strip"', '"Candle"',
-        '"x"', '""', '"{} {}"', '"{"', '"{x}"', '"{0} {1}"', '"a b"', '"-"', '"["', '8:00', '*:15',
+        '"x"', '""', '"{} {}"', '"{"', '"{x}"', '"{0} {1}"', '"{:>{}}"', '"{x.real}"', '"{0.real}{s[0]}"',
+        '"{:{w}.{}f}"', '"{99999999999999999999}"', '"{:{!}}"', '"a b"', '"-"', '"["', '8:00', '*:15',
         '25:00', '1*:3*', '12:61', '*:*', '*']
 
 
